@@ -21,6 +21,38 @@ pub enum Expr {
     Eq(Box<Expr>, Box<Expr>),
     Test(Box<Expr>, &'static str),
     Filter(Box<Expr>, &'static str, Vec<(String, Expr)>),
+    // ---- extended forms: family `compile` only (Scope::ext > 0)
+    Bin(&'static str, Box<Expr>, Box<Expr>), // source operator: + - * / // % ** < <= > >= != ~ in
+    NotIn(Box<Expr>, Box<Expr>),             // a not in b  ==  ENot (EBin BIn a b)
+    Neg(Box<Expr>),
+    Ternary(Box<Expr>, Box<Expr>, Box<Expr>), // (cond, true, false)
+    // ---- Scope::ext >= 2
+    AttrOpt(Box<Expr>, String),                                            // e?.a
+    Sub(bool, Box<Expr>, Box<Expr>),                                       // e[i] / e?[i]
+    Slice(bool, Box<Expr>, Option<Box<Expr>>, Option<Box<Expr>>, Option<Box<Expr>>), // e[a:b:c] / e?[a:b:c]
+    Call(&'static str, Vec<(String, Expr)>),                               // f(k=v): at most one kwarg (HashMap order)
+    Arr(Vec<(bool, Expr)>),                                                // [a, ...b] with a non-literal entry
+    Map(Vec<(Option<(Value, String)>, Expr)>),                             // {k: v, ...m} with a non-literal entry
+}
+
+fn binop_gal(op: &str) -> &'static str {
+    match op {
+        "*" => "BMul",
+        "/" => "BDiv",
+        "//" => "BFloorDiv",
+        "%" => "BMod",
+        "+" => "BPlus",
+        "-" => "BMinus",
+        "**" => "BPower",
+        "<" => "BLt",
+        ">" => "BGt",
+        "<=" => "BLe",
+        ">=" => "BGe",
+        "!=" => "BNe",
+        "~" => "BConcat",
+        "in" => "BIn",
+        _ => panic!("binop"),
+    }
 }
 
 pub type Kw = Vec<(String, Expr)>;
@@ -43,7 +75,10 @@ pub enum Stmt {
 
 impl Expr {
     fn is_atom(&self) -> bool {
-        matches!(self, Expr::Const(..) | Expr::Var(_) | Expr::Loop(_) | Expr::Attr(..))
+        matches!(
+            self,
+            Expr::Const(..) | Expr::Var(_) | Expr::Loop(_) | Expr::Attr(..) | Expr::AttrOpt(..) | Expr::Sub(..) | Expr::Slice(..) | Expr::Call(..) | Expr::Arr(_) | Expr::Map(_)
+        )
     }
     fn atom_src(&self) -> String {
         if self.is_atom() { self.src() } else { format!("({})", self.src()) }
@@ -60,6 +95,37 @@ impl Expr {
             Expr::Eq(a, b) => format!("{} == {}", a.atom_src(), b.atom_src()),
             Expr::Test(e, n) => format!("{} is {n}", e.atom_src()),
             Expr::Filter(e, n, kw) => format!("{} | {n}{}", e.atom_src(), kw_src(kw)),
+            Expr::Bin(op, a, b) => format!("{} {op} {}", a.atom_src(), b.atom_src()),
+            Expr::NotIn(a, b) => format!("{} not in {}", a.atom_src(), b.atom_src()),
+            Expr::Neg(e) => format!("-{}", e.atom_src()),
+            Expr::Ternary(c, a, b) => format!("{} if {} else {}", a.atom_src(), c.atom_src(), b.atom_src()),
+            Expr::AttrOpt(e, a) => format!("{}?.{a}", e.atom_src()),
+            Expr::Sub(opt, e, i) => format!("{}{}{}]", e.atom_src(), if *opt { "?[" } else { "[" }, i.src()),
+            Expr::Slice(opt, e, a, b, c) => {
+                let p = |x: &Option<Box<Expr>>| x.as_ref().map(|e| e.atom_src()).unwrap_or_default();
+                let step = match c {
+                    Some(c) => format!(":{}", c.atom_src()),
+                    None => String::new(),
+                };
+                format!("{}{}{}:{}{step}]", e.atom_src(), if *opt { "?[" } else { "[" }, p(a), p(b))
+            }
+            Expr::Call(n, kw) => format!("{n}({})", kw.iter().map(|(k, e)| format!("{k}={}", e.src())).collect::<Vec<_>>().join(", ")),
+            Expr::Arr(items) => format!(
+                "[{}]",
+                items.iter().map(|(sp, e)| format!("{}{}", if *sp { "..." } else { "" }, e.atom_src())).collect::<Vec<_>>().join(", ")
+            ),
+            // spaces inside the braces: `}}` would end the variable block
+            Expr::Map(entries) => format!(
+                "{{ {} }}",
+                entries
+                    .iter()
+                    .map(|(k, e)| match k {
+                        Some((_, ks)) => format!("{ks}: {}", e.atom_src()),
+                        None => format!("...{}", e.atom_src()),
+                    })
+                    .collect::<Vec<_>>()
+                    .join(", ")
+            ),
         }
     }
     pub fn gal(&self) -> String {
@@ -83,6 +149,111 @@ impl Expr {
             Expr::Eq(a, b) => format!("(EEq {} {})", a.gal(), b.gal()),
             Expr::Test(e, n) => format!("(ETest {} {})", e.gal(), gal_str(n)),
             Expr::Filter(e, n, kw) => format!("(EFilter {} {} {})", e.gal(), gal_str(n), kw_gal(kw)),
+            Expr::Bin(op, a, b) => format!("(EBin {} {} {})", binop_gal(op), a.gal(), b.gal()),
+            Expr::NotIn(a, b) => format!("(ENot (EBin BIn {} {}))", a.gal(), b.gal()),
+            Expr::Neg(e) => format!("(ENeg {})", e.gal()),
+            Expr::Ternary(c, a, b) => format!("(ETernary {} {} {})", c.gal(), a.gal(), b.gal()),
+            Expr::AttrOpt(e, a) => format!("(EAttrOpt {} {})", e.gal(), gal_str(a)),
+            Expr::Sub(opt, e, i) => format!("(ESub {} {} {})", gal_bool(*opt), e.gal(), i.gal()),
+            Expr::Slice(opt, e, a, b, c) => {
+                let p = |x: &Option<Box<Expr>>| match x {
+                    Some(e) => format!("(Some {})", e.gal()),
+                    None => "None".to_string(),
+                };
+                format!("(ESlice {} {} {} {} {})", gal_bool(*opt), e.gal(), p(a), p(b), p(c))
+            }
+            Expr::Call(n, kw) => format!("(ECall {} {})", gal_str(n), kw_gal(kw)),
+            Expr::Arr(items) => format!(
+                "(EArr [{}])",
+                items.iter().map(|(sp, e)| format!("({}, {})", gal_bool(*sp), e.gal())).collect::<Vec<_>>().join("; ")
+            ),
+            Expr::Map(entries) => format!(
+                "(EMap [{}])",
+                entries
+                    .iter()
+                    .map(|(k, e)| match k {
+                        Some((kv, _)) => format!("(Some {}, {})", gal_value(kv), e.gal()),
+                        None => format!("(None, {})", e.gal()),
+                    })
+                    .collect::<Vec<_>>()
+                    .join("; ")
+            ),
+        }
+    }
+    /// the extended forms occurring in the expression (coverage tags of family `compile`)
+    pub fn forms(&self, out: &mut std::collections::BTreeSet<&'static str>) {
+        match self {
+            Expr::Const(..) | Expr::Var(_) | Expr::Loop(_) => {}
+            Expr::Attr(e, _) | Expr::Not(e) | Expr::Test(e, _) => e.forms(out),
+            Expr::And(a, b) | Expr::Or(a, b) | Expr::Eq(a, b) => {
+                a.forms(out);
+                b.forms(out);
+            }
+            Expr::Filter(e, _, kw) => {
+                e.forms(out);
+                for (_, x) in kw {
+                    x.forms(out);
+                }
+            }
+            Expr::Bin(op, a, b) => {
+                out.insert(match *op {
+                    "+" | "-" | "*" | "/" | "//" | "%" | "**" => "x:arith",
+                    "<" | "<=" | ">" | ">=" | "!=" => "x:compare",
+                    "~" => "x:concat",
+                    _ => "x:in",
+                });
+                a.forms(out);
+                b.forms(out);
+            }
+            Expr::NotIn(a, b) => {
+                out.insert("x:not-in");
+                a.forms(out);
+                b.forms(out);
+            }
+            Expr::Neg(e) => {
+                out.insert("x:neg");
+                e.forms(out);
+            }
+            Expr::Ternary(c, a, b) => {
+                out.insert("x:ternary");
+                c.forms(out);
+                a.forms(out);
+                b.forms(out);
+            }
+            Expr::AttrOpt(e, _) => {
+                out.insert("x:attr-opt");
+                e.forms(out);
+            }
+            Expr::Sub(opt, e, i) => {
+                out.insert(if *opt { "x:subscript-opt" } else { "x:subscript" });
+                e.forms(out);
+                i.forms(out);
+            }
+            Expr::Slice(opt, e, a, b, c) => {
+                out.insert(if *opt { "x:slice-opt" } else { "x:slice" });
+                e.forms(out);
+                for x in [a, b, c].into_iter().flatten() {
+                    x.forms(out);
+                }
+            }
+            Expr::Call(_, kw) => {
+                out.insert(if kw.is_empty() { "x:call" } else { "x:call-kwargs" });
+                for (_, x) in kw {
+                    x.forms(out);
+                }
+            }
+            Expr::Arr(items) => {
+                out.insert(if items.iter().any(|x| x.0) { "x:array-spread" } else { "x:array" });
+                for (_, x) in items {
+                    x.forms(out);
+                }
+            }
+            Expr::Map(entries) => {
+                out.insert(if entries.iter().any(|x| x.0.is_none()) { "x:map-spread" } else { "x:map" });
+                for (_, x) in entries {
+                    x.forms(out);
+                }
+            }
         }
     }
 }
@@ -182,6 +353,43 @@ impl Stmt {
             Stmt::Include(n) => format!("(SInclude {})", gal_str(n)),
             Stmt::Break => "SBreak".into(),
             Stmt::Continue => "SContinue".into(),
+        }
+    }
+    pub fn forms(&self, out: &mut std::collections::BTreeSet<&'static str>) {
+        let kwf = |kw: &Kw, out: &mut std::collections::BTreeSet<&'static str>| {
+            for (_, x) in kw {
+                x.forms(out);
+            }
+        };
+        match self {
+            Stmt::Print(e) | Stmt::Assign(_, _, e) => e.forms(out),
+            Stmt::If(c, x, y) => {
+                c.forms(out);
+                for s in x.iter().chain(y) {
+                    s.forms(out);
+                }
+            }
+            Stmt::For { target, body, els, .. } => {
+                target.forms(out);
+                for s in body.iter().chain(els) {
+                    s.forms(out);
+                }
+            }
+            Stmt::SetBlock(_, _, x, fs) => {
+                for s in x {
+                    s.forms(out);
+                }
+                for (_, kw) in fs {
+                    kwf(kw, out);
+                }
+            }
+            Stmt::Filter(_, kw, x) => {
+                kwf(kw, out);
+                for s in x {
+                    s.forms(out);
+                }
+            }
+            _ => {}
         }
     }
     pub fn count(&self) -> usize {
@@ -326,11 +534,16 @@ pub struct Scope {
     in_loop: bool,             // break/continue allowed (not across a capture)
     loop_lexical: bool,        // loop.* rewritten (any enclosing for)
     includes: Vec<String>,     // templates this one may include
+    ext: u8,                   // 0: the language of family `ref`; >0: also the extended expression forms
 }
 
 impl Scope {
     pub fn top(includes: Vec<String>) -> Scope {
-        Scope { vars: vec![], in_loop: false, loop_lexical: false, includes }
+        Scope { vars: vec![], in_loop: false, loop_lexical: false, includes, ext: 0 }
+    }
+    /// family `compile` only: expressions also use the forms Model/Compile.v covers beyond Spec `ref`
+    pub fn top_ext(includes: Vec<String>, ext: u8) -> Scope {
+        Scope { vars: vec![], in_loop: false, loop_lexical: false, includes, ext }
     }
 }
 
@@ -347,8 +560,165 @@ fn var(n: &str) -> Expr {
     Expr::Var(n.to_string())
 }
 
+/// one of the extended forms (arithmetic, comparisons, `~`, `in` / `not in`, unary minus, ternary)
+/// over sub-expressions of the ordinary generator; only reached when `sc.ext > 0`
+fn ext_expr(rng: &mut Rng, sc: &Scope, depth: u32, want_cond: bool) -> Expr {
+    let d = depth.saturating_sub(1);
+    let num = |rng: &mut Rng| -> Expr {
+        match rng.below(5) {
+            0 => cint(rng.range(0, 9)),
+            1 => var(*rng.pick(&["z", "n1", "n2"])),
+            2 if sc.loop_lexical => Expr::Loop(*rng.pick(&["index", "index0", "length"])),
+            3 if depth > 0 => scalar(rng, sc, d),
+            _ => Expr::Filter(Box::new(var(*rng.pick(&["arr", "s", "one"]))), "length", vec![]),
+        }
+    };
+    if sc.ext >= 2 && rng.chance(1, 2) {
+        return ext2_expr(rng, sc, depth);
+    }
+    let k = if want_cond { 3 + rng.below(5) } else { rng.below(8) };
+    match k {
+        0 | 1 => {
+            let op = *rng.pick(&["+", "-", "*", "/", "//", "%", "**", "+", "-", "*"]);
+            Expr::Bin(op, Box::new(num(rng)), Box::new(num(rng)))
+        }
+        2 => {
+            // `~`: a unary operator is a syntax error directly after it (parser.rs 889-897)
+            let a = scalar(rng, sc, d);
+            let mut b = scalar(rng, sc, d);
+            if matches!(b, Expr::Neg(_) | Expr::Not(_) | Expr::NotIn(..)) {
+                b = var("w");
+            }
+            Expr::Bin("~", Box::new(a), Box::new(b))
+        }
+        3 | 4 => {
+            let op = *rng.pick(&["<", "<=", ">", ">=", "!="]);
+            Expr::Bin(op, Box::new(num(rng)), Box::new(num(rng)))
+        }
+        5 => {
+            let a = Box::new(if rng.chance(1, 2) { cstr(*rng.pick(&["a", "k", "zz"])) } else { scalar(rng, sc, d) });
+            let b = Box::new(var(*rng.pick(&["arr", "s", "m1", "e", "one"])));
+            if rng.chance(1, 2) { Expr::Bin("in", a, b) } else { Expr::NotIn(a, b) }
+        }
+        6 => Expr::Ternary(
+            Box::new(cond(rng, sc, d)),
+            Box::new(if want_cond { cond(rng, sc, d) } else { scalar(rng, sc, d) }),
+            Box::new(if want_cond { cond(rng, sc, d) } else { scalar(rng, sc, d) }),
+        ),
+        // `-` and `not` cannot be used consecutively (parser.rs 748-759): fine under parentheses
+        _ => Expr::Neg(Box::new(num(rng))),
+    }
+}
+
+/// subscripts, slices, optional chaining, function calls, array / map literals (never literal-only:
+/// the parser folds those into constants, parser.rs 636-651 / 707-712)
+fn ext2_expr(rng: &mut Rng, sc: &Scope, depth: u32) -> Expr {
+    let d = depth.saturating_sub(1);
+    let base = |rng: &mut Rng| -> Expr {
+        match rng.below(4) {
+            0 => var(*rng.pick(&["arr", "s", "rows", "nest", "m1", "u"])),
+            1 if depth > 0 => scalar(rng, sc, d),
+            2 => Expr::Attr(Box::new(var("m1")), "k".into()),
+            _ => var(*rng.pick(&["arr", "nest", "one"])),
+        }
+    };
+    let idx = |rng: &mut Rng| -> Expr {
+        match rng.below(4) {
+            0 => cint(rng.range(0, 3)),
+            1 => cstr(*rng.pick(&["k", "x"])),
+            2 if sc.loop_lexical => Expr::Loop("index0"),
+            _ => {
+                if depth > 0 { scalar(rng, sc, d) } else { var("z") }
+            }
+        }
+    };
+    let nonlit = |rng: &mut Rng| -> Expr {
+        match rng.below(3) {
+            0 => var(*rng.pick(&["v", "w", "arr", "z"])),
+            1 if depth > 0 => match scalar(rng, sc, d) {
+                Expr::Const(..) => var("v"),
+                e => e,
+            },
+            _ => Expr::Attr(Box::new(var("m1")), "k".into()),
+        }
+    };
+    // `?.` and `?[` are only parsed after an identifier path (parser.rs parse_ident), not after `)`
+    let is_path = |e: &Expr| {
+        let mut e = e;
+        loop {
+            match e {
+                Expr::Var(_) => return true,
+                Expr::Attr(x, _) | Expr::AttrOpt(x, _) => e = x,
+                _ => return false,
+            }
+        }
+    };
+    let path = |rng: &mut Rng| -> Expr {
+        match rng.below(3) {
+            0 => Expr::Attr(Box::new(var("m1")), rng.pick(&["k", "nokey"]).to_string()),
+            1 => Expr::AttrOpt(Box::new(var(*rng.pick(&["u", "m1", "rows"]))), "k".into()),
+            _ => var(*rng.pick(&["arr", "s", "rows", "nest", "m1", "u"])),
+        }
+    };
+    match rng.below(9) {
+        0 => Expr::AttrOpt(Box::new(path(rng)), rng.pick(&["x", "k", "nope"]).to_string()),
+        1 | 2 => {
+            let b = base(rng);
+            Expr::Sub(is_path(&b) && rng.chance(1, 2), Box::new(b), Box::new(idx(rng)))
+        }
+        3 | 4 => {
+            let mut part = |rng: &mut Rng| if rng.chance(1, 2) { Some(Box::new(idx(rng))) } else { None };
+            let a = part(rng);
+            let b = part(rng);
+            let c = if rng.chance(1, 3) { Some(Box::new(if rng.chance(1, 2) { Expr::Neg(Box::new(cint(1))) } else { cint(rng.range(1, 3)) })) } else { None };
+            let e = base(rng);
+            Expr::Slice(is_path(&e) && rng.chance(1, 2), Box::new(e), a, b, c)
+        }
+        5 => match rng.below(3) {
+            0 => Expr::Call("now", vec![]),
+            1 => Expr::Call("range", vec![("end".into(), idx(rng))]),
+            _ => Expr::Call("throw", vec![("message".into(), nonlit(rng))]),
+        },
+        6 | 7 => {
+            let n = 1 + rng.below(3);
+            let mut items: Vec<(bool, Expr)> = (0..n)
+                .map(|_| match rng.below(4) {
+                    0 => (true, var(*rng.pick(&["arr", "one", "e"]))),
+                    1 => (false, cint(rng.range(0, 5))),
+                    _ => (false, nonlit(rng)),
+                })
+                .collect();
+            if items.iter().all(|(sp, e)| !*sp && matches!(e, Expr::Const(..))) {
+                items.push((false, var("v")));
+            }
+            Expr::Arr(items)
+        }
+        _ => {
+            let n = 1 + rng.below(3);
+            let mut entries: Vec<(Option<(Value, String)>, Expr)> = (0..n)
+                .map(|i| match rng.below(5) {
+                    0 => (None, var(*rng.pick(&["m1", "em"]))),
+                    1 => (Some((Value::from(i as i64), format!("{i}"))), nonlit(rng)),
+                    2 => (Some((Value::from(true), "true".to_string())), cint(1)),
+                    _ => {
+                        let k = *rng.pick(&["a", "k", "zz"]);
+                        (Some((Value::from(k), format!("\"{k}\""))), nonlit(rng))
+                    }
+                })
+                .collect();
+            if entries.iter().all(|(k, e)| k.is_some() && matches!(e, Expr::Const(..))) {
+                entries.push((None, var("m1")));
+            }
+            Expr::Map(entries)
+        }
+    }
+}
+
 /// an expression that prints (a scalar) most of the time
 fn scalar(rng: &mut Rng, sc: &Scope, depth: u32) -> Expr {
+    if sc.ext > 0 && depth > 0 && rng.chance(2, 5) {
+        return ext_expr(rng, sc, depth, false);
+    }
     let scalars: Vec<&(String, Kind)> = sc.vars.iter().filter(|v| v.1 == Kind::Scalar).collect();
     let rows: Vec<&(String, Kind)> = sc.vars.iter().filter(|v| v.1 == Kind::Row).collect();
     match rng.below(if depth == 0 { 9 } else { 16 }) {
@@ -386,6 +756,9 @@ fn scalar(rng: &mut Rng, sc: &Scope, depth: u32) -> Expr {
 
 /// a condition with a truthy/falsy mix
 fn cond(rng: &mut Rng, sc: &Scope, depth: u32) -> Expr {
+    if sc.ext > 0 && depth > 0 && rng.chance(2, 5) {
+        return ext_expr(rng, sc, depth, true);
+    }
     let rows: Vec<&(String, Kind)> = sc.vars.iter().filter(|v| v.1 == Kind::Row).collect();
     let scalars: Vec<&(String, Kind)> = sc.vars.iter().filter(|v| v.1 == Kind::Scalar).collect();
     match rng.below(if depth == 0 { 9 } else { 14 }) {
